@@ -15,7 +15,7 @@ import ast
 
 from .. import flow
 from .. import regexlang as rl
-from ..astutil import body_walk, call_name, call_recv, calls_in, fstring_parts, merge_consts, names_in, norm, strip_await, walk_no_nested
+from ..astutil import kwarg, body_walk, call_name, call_recv, calls_in, fstring_parts, merge_consts, names_in, norm, strip_await, walk_no_nested
 from .common import parmap, where
 
 PROP = "C19"
@@ -74,8 +74,19 @@ def r19_1(ctx):
             n += 1
             st = _stmt(c, fi)
             if isinstance(st, ast.Expr):
+                # the rest of a line that was refused because it is longer than the stream takes: its terminator has *not*
+                # been read yet (LimitOverrunError leaves the data in the stream) - skipping to it is what keeps the next
+                # command whole
+                par_ = parmap(fi)
+                cur_, in_overrun = st, False
+                while cur_ in par_:
+                    cur_ = par_[cur_]
+                    if isinstance(cur_, ast.ExceptHandler) and cur_.type is not None and "LimitOverrunError" in norm(cur_.type):
+                        in_overrun = True
                 if call_name(c) in ("readexactly", "read"):
                     ctx.ok("R19.1", where(fi), f"{norm(c, 60)}: by-count read of refused literal data discarded", nontrivial=False)
+                elif in_overrun:
+                    ctx.ok("R19.1", where(fi), f"{norm(c, 60)}: rest of an over-long (refused) line skipped up to its own terminator")
                 else:
                     ctx.bad(
                         "R19.1", fi.module, fi.qual, norm(c, 80),
@@ -480,6 +491,54 @@ def r19_9(ctx):
         ctx.bad("R19.9", fi.module, fi.qual, "if m: ... continue", "after consuming a literal the loop falls through to the relay: a command is passed on before its line is complete", mifs[0].lineno if mifs else fi.node.lineno)
 
 
+def r19_10(ctx):
+    """A command line is read with StreamReader.readuntil(), which refuses a line longer than the stream's `limit` with
+    LimitOverrunError (64 KiB unless the server was told otherwise).  (a) The front end's server gives its streams
+    limit=MAX_INPUT_SIZE: a line as long as a command may be is a command.  (b) The read of a line in IMAPClient.start sits in a
+    try whose LimitOverrunError handler sends a BAD and goes on with the loop (no break / return / raise): the connection is not
+    dropped and the commands behind the refused one are served."""
+    p = ctx.p
+    srv = p.func("server.IMAPServer.run")
+    ctx.analysed(srv)
+    ss = [c for c in calls_in(srv.node) if call_name(c) == "start_server"]
+    ctx.floor("R19.10", len(ss), 1, "asyncio.start_server calls of the front end")
+    for c in ss:
+        lim = kwarg(c, "limit")
+        if lim is not None and norm(lim) in ("MAX_INPUT_SIZE",) or (isinstance(lim, ast.BinOp) and "MAX_INPUT_SIZE" in norm(lim) and isinstance(lim.op, (ast.Add, ast.Mult))):
+            ctx.ok("R19.10", where(srv), f"start_server(..., limit={norm(lim)})")
+        else:
+            ctx.bad("R19.10", srv.module, srv.qual, norm(c, 90), f"the client streams are created with limit={norm(lim) if lim is not None else 'the 64 KiB default'}: a command line longer than that (a long UID FETCH list, well within MAX_INPUT_SIZE) raises LimitOverrunError in readuntil() - the command is not relayed", c.lineno)
+    fi = p.func("server.IMAPClient.start")
+    ctx.analysed(fi)
+    par = parmap(fi)
+    reads = [c for c in calls_in(fi.node) if call_name(c) == "readuntil" and isinstance(_stmt(c, fi), ast.Assign)]
+    ctx.floor("R19.10", len(reads), 1, "line reads in IMAPClient.start")
+    for c in reads:
+        handler = None
+        cur = c
+        while cur in par and handler is None:
+            up = par[cur]
+            if isinstance(up, ast.Try) and any(cur is b or any(cur is x for x in ast.walk(b)) for b in up.body):
+                for h in up.handlers:
+                    if h.type is not None and "LimitOverrunError" in norm(h.type):
+                        handler = h
+                if handler is None and isinstance(up, ast.Try):
+                    pass
+            if isinstance(up, (ast.While, ast.For, ast.AsyncFor)):
+                break
+            cur = up
+        if handler is None:
+            ctx.bad("R19.10", fi.module, fi.qual, norm(c, 70), "LimitOverrunError of the line read is not handled inside the read loop: a line longer than the stream takes ends the connection without a BAD, and every command behind it is dropped", c.lineno)
+            continue
+        says_bad = any(call_name(x) == "push" and any(isinstance(k, ast.Constant) and isinstance(k.value, (bytes, str)) and (b"BAD" in k.value if isinstance(k.value, bytes) else "BAD" in k.value) for a in x.args for k in ast.walk(a)) for x in ast.walk(handler) if isinstance(x, ast.Call))
+        leaves = [x for st in handler.body for x in walk_no_nested(st) if isinstance(x, (ast.Return, ast.Raise))] + [st for st in handler.body if isinstance(st, ast.Break)]
+        goes_on = bool(handler.body) and isinstance(handler.body[-1], ast.Continue)
+        if says_bad and goes_on and not leaves:
+            ctx.ok("R19.10", where(fi), "over-long line: BAD, skipped, the loop goes on")
+        else:
+            ctx.bad("R19.10", fi.module, fi.qual, "except asyncio.LimitOverrunError: ...", "the handler for an over-long line does not (send a BAD and) go on reading: the command is dropped silently or the session ends", handler.lineno)
+
+
 def run(ctx):
     ctx.do(r19_8)
     ctx.do(r19_1)
@@ -490,3 +549,4 @@ def run(ctx):
     ctx.do(r19_5b)
     ctx.do(r19_6_7)
     ctx.do(r19_9)
+    ctx.do(r19_10)
